@@ -36,3 +36,52 @@ package tools
 //@ loop 6 modifies entries(ss.Membership.Addresses)
 //@ loop 6 invariant forall k uint64 :: (k in ss.Membership.Addresses) == visited(k)
 //@ loop 6 invariant forall k uint64 :: visited(k) ==> k in members && ss.Membership.Addresses[k] == members[k]
+
+// ---------------------------------------------------------------- validation (C20)
+// a member list that does not contain the importing replica at its own address is refused
+//@ func checkImportSettings [C20]
+//@ modifies raftio.gImpSettingsOK
+//@ ensures (result == nil) == (replicaID in memberNodes && memberNodes[replicaID] == nhConfig.RaftAddress)
+//@ ensures result == nil ==> memberNodes != nil
+//@ ghostset raftio.gImpSettingsOK := result == nil
+
+// a member list that re-admits a removed replica, or changes a member's address or kind, is refused
+//@ func checkMembers [C20]
+//@ modifies raftio.gImpMembersOK
+//@ ensures result == nil ==> (forall k uint64 :: k in members ==> !(k in old.Removed) && !(k in old.NonVotings) && !(k in old.Witnesses) &&
+//@    (k in old.Addresses ==> old.Addresses[k] == members[k]))
+//@ ghostset raftio.gImpMembersOK := result == nil
+//@ loop 1 invariant forall k uint64 :: visited(k) ==> k in members && !(k in old.Removed) && !(k in old.NonVotings) && !(k in old.Witnesses) &&
+//@    (k in old.Addresses ==> old.Addresses[k] == members[k])
+
+// an export whose snapshot file is missing or does not match the recorded checksum is refused
+//@ func isCompleteSnapshotImage [C20]
+//@ trusted reads the payload checksum of the snapshot file and compares it with the recorded one (file I/O, bytes.Equal)
+//@ modifies raftio.gImpImageOK
+//@ ghostset raftio.gImpImageOK := result0 && result1 == nil
+
+// ---------------------------------------------------------------- the import itself (C20)
+// From the property: an import that fails any of the three validations is refused without
+// modifying existing data.
+//@ func ImportSnapshot [C20]
+//@ noframe
+//@ nobounds
+//@ requires !raftio.gDataMutated && !raftio.gImpSettingsOK && !raftio.gImpImageOK && !raftio.gImpMembersOK
+//@ modifies raftio.gDataMutated, raftio.gImpSettingsOK, raftio.gImpImageOK, raftio.gImpMembersOK
+//@ ensures !(raftio.gImpSettingsOK && raftio.gImpImageOK && raftio.gImpMembersOK) ==> err != nil && !raftio.gDataMutated
+
+//@ func getSnapshotFilepath [C20]
+//@ trusted read-only file-system queries
+//@ func getSnapshotRecord [C20]
+//@ trusted reads and decodes the metadata file
+//@ func getLogDB [C20]
+//@ trusted opens the log store of the NodeHost
+//@ ensures result1 == nil ==> result0 != nil
+//@ func cleanupSnapshotDir [C20]
+//@ trusted removes existing snapshot directories of the replica
+//@ ghostset raftio.gDataMutated := true
+//@ func copySnapshot [C20]
+//@ trusted copies the snapshot files into the temporary directory
+//@ ghostset raftio.gDataMutated := true
+//@ extern github.com/lni/dragonboat/v4/config (c *NodeHostConfig) Prepare
+//@ extern github.com/lni/dragonboat/v4/internal/fileutil Exist
